@@ -1,4 +1,6 @@
+import GbVerif.Props.C11
 import GbVerif.Props.C13
+import GbVerif.Props.C14
 import GbVerif.Props.C15
 import GbVerif.Props.C17
 import GbVerif.Props.C19
